@@ -3,6 +3,7 @@ package props
 import (
 	"fmt"
 	"math/big"
+	"math/rand"
 	"testing"
 	"time"
 
@@ -14,6 +15,7 @@ import (
 	vaulttypes "github.com/comdex-official/comdex/x/vault/types"
 
 	"verif/ev"
+	"verif/sim"
 )
 
 // ---- C09: liquidation safety, bounded liveness, hand-over (vault side) ----
@@ -195,6 +197,80 @@ func (m *c09Mon) Observe(pre, post *cdpSnap, e *cdpEvent) {
 	}
 }
 
+// c09TailProbe: bounded liveness at the END of the position list with a population that does not move. Prices go
+// back to their base, a head of comfortably safe vaults is opened, and then, round after round, one more vault is
+// opened just above its minimum ratio (it is the last of the list), its collateral price slips so that this vault
+// alone becomes unsafe, and nobody does anything for a little more than two full sweeps. The list length grows by
+// one per round, so every residue of (length mod batch size) is seen.
+func c09TailProbe(r *cdpRunner, rnd *rand.Rand, rec *ev.Rec, batch int, basePrice map[string]uint64) {
+	u := r.u
+	c := u.c
+	if r.panicked {
+		return
+	}
+	for _, as := range u.assets {
+		as := as
+		r.env("price", "restore "+as.Denom, func() { u.setPrice(as.Denom, basePrice[as.Denom], true) })
+	}
+	r.block(6 * time.Second)
+	var prods []*uProduct
+	for _, p := range u.products {
+		if p.App == appBeacon && !p.P.IsStableMintVault && p.P.MinCr.GT(sdk.OneDec()) {
+			prods = append(prods, p)
+		}
+	}
+	if len(prods) == 0 {
+		return
+	}
+	open := func(a *sim.Acct, p *uProduct, crPermilleOfMin int64) bool {
+		for _, v := range r.last.Vaults {
+			if v.Owner == a.Addr.String() && v.ExtendedPairVaultID == p.ID {
+				return false
+			}
+		}
+		debt := p.P.DebtFloor.MulRaw(int64(30 + rnd.Intn(40)))
+		in := r.collateralFor(p, debt, p.P.MinCr.MulInt64(crPermilleOfMin).TruncateInt64())
+		res := r.tx("vault_create", a, &vaulttypes.MsgCreateRequest{From: a.Addr.String(), AppId: p.App, ExtendedPairVaultId: p.ID, AmountIn: in, AmountOut: debt}, fmt.Sprintf("tail probe: %s product %d cr=%d permille of min", a.Name, p.ID, crPermilleOfMin))
+		return res.OK()
+	}
+	// a safe head
+	for i, a := range c.Accts {
+		if i >= 3 {
+			break
+		}
+		for _, p := range prods {
+			open(a, p, 3000)
+		}
+	}
+	rounds := batch + 2
+	if rounds > 7 {
+		rounds = 3
+	}
+	done := 0
+	for i := 3; i < len(c.Accts) && done < rounds && !r.panicked; i++ {
+		for _, p := range prods {
+			if done >= rounds || r.panicked {
+				break
+			}
+			if !open(c.Accts[i], p, 1040) {
+				continue
+			}
+			done++
+			pin, _ := u.price(p.In)
+			in := p.In
+			r.env("price", "tail probe: slip of "+in.Denom, func() { u.setPrice(in.Denom, pin*93/100, true) })
+			quiet := 2*((len(r.last.Vaults)+batch-1)/batch) + 6
+			for b := 0; b < quiet && !r.panicked; b++ {
+				r.block(6 * time.Second)
+			}
+			rec.Count("tail_probe_rounds", 1)
+			rec.Count("tail_probe_quiet_blocks", int64(quiet))
+			r.env("price", "tail probe: restore "+in.Denom, func() { u.setPrice(in.Denom, pin, true) })
+			r.block(6 * time.Second)
+		}
+	}
+}
+
 func TestC09(t *testing.T) {
 	rec := ev.New("C09", "exploration", "vault populations of two CDP apps (generation-1: liquidate messages only, generation-2: per-block sweep with batch size {1,2,5,200} + messages), oracle price paths (drops, crashes, recoveries), other vaults created/closed between sweeps; at every seizure the exact ratio with the recorded post-accrual debt decides safety; every block advances the per-vault 'survived sweeps while clearly unsafe' counter (bound 2*ceil(L/batch)+2); hand-over coin and auction-count checks. distinct = (generation, message|sweep, product, price) at seizures and (population, unsafe set size) at blocks")
 	defer finish(t, rec)
@@ -207,6 +283,10 @@ func TestC09(t *testing.T) {
 		rnd := rng("C09", run)
 		cfg := cdpCfg{priceMoves: true, bids: true, lockers: false, unsolicited: false, liquidateMsg: true, unsafeBias: true, maxGap: 0}
 		r := newCdpRunner(u, rnd, rec, cfg, newC09Mon(u, rec, batch))
+		basePrice := map[string]uint64{}
+		for _, as := range u.assets {
+			basePrice[as.Denom], _ = u.price(as)
+		}
 		r.run(cdpSteps())
 		// slow ramp: collateral prices fall 1.5 % per block, every vault passes through the band around its own ratio
 		for i := 0; i < ev.Pick(40, 120) && !r.panicked; i++ {
@@ -220,6 +300,7 @@ func TestC09(t *testing.T) {
 			}
 			r.block(6 * time.Second)
 		}
+		c09TailProbe(r, rnd, rec, batch, basePrice)
 		if run == 0 {
 			rec.Sample(map[string]interface{}{"variant": variant, "batch": batch, "oplog_tail": r.tail(10)})
 		}
